@@ -25,6 +25,8 @@ for d in sorted(glob.glob("/verif/seeded/*/")):
     key = os.path.basename(d.rstrip("/"))
     if only and key not in only:
         continue
+    if key == "benign":
+        continue
     patch = os.path.join(d, "patch.diff")
     meta = os.path.join(d, "meta.json")
     if os.path.exists(meta):
